@@ -12,7 +12,7 @@ from ..e1 import engine
 RULE = ("(matrix) target kind {module function, instance method, classmethod, staticmethod, plain attribute} x replacement kind {default mock, plain function, "
         "lambda, bound method, callable object, new_callable mock class, new_callable callable-object class, non-callable} x activation {with, decorator, "
         "start/stop, stopall} x exit path {normal, exception}, enumerated exhaustively; (histories) generated nested/sequential patch histories on one target "
-        "with generated arguments. Every cell is non-trivial; distinct = distinct case JSON")
+        "with generated arguments. Every cell is non-trivial; distinct = distinct case JSON Bound-method replacements are the same method of a different helper object each time; overlapping patches may install one replacement object; results may be future objects.")
 ASSUMPTIONS = ["new_callable is exercised as the standard library documents it: a mock class or a class of callable objects (DESIGN.md note N3)",
                "which arguments a replacement receives (with or without the bound instance) follows Python's descriptor protocol for the replacement kind; the oracle requires "
                "that all four calling conventions deliver the *same* arguments, ending with the given ones, and agree on the result"]
